@@ -140,6 +140,9 @@ def run(ctx):
             continue
         stat["sessions"] += 1
         stat["ticks"] += info["ticks"]
+        stat["eps_dispatched"] = stat.get("eps_dispatched", 0) + info["eps_dispatched"]
+        stat["eps_boundary"] = stat.get("eps_boundary", 0) + info["eps_boundary"]
+        stat["sessions_with_eps_boundary"] = stat.get("sessions_with_eps_boundary", 0) + (1 if info["eps_boundary"] else 0)
         stat["starts"] += info["started"]
         stat["ends"] += info["ended"]
         stat["raised"] += 1 if any(it[0] == "exception" for it in items) else 0
@@ -252,7 +255,11 @@ def run(ctx):
     cov["model_vs_impl"] = {"sessions_compared": len(sess), "events_compared": events, "agree_with_repaired_model": len(sess) - len(disagree),
                             "agree_only_with_model_of_unrepaired_code": {c: sum(1 for v in explained.values() if v == c) for c in set(explained.values())},
                             "no_model_agrees": len(unexplained)}
-    for cfg in sorted(set(explained.values())):
+    # a concrete failing input found by the judge is reported in preference to a correspondence break: the break is
+    # then only recorded in the evidence (it is the same change seen from the model's side)
+    concrete = sorted(sg for sg in k2_hits if sg not in pending)
+    cov["model_vs_impl"]["correspondence_breaks_not_reported_because_of_concrete_violations"] = bool(concrete and disagree)
+    for cfg in sorted(set(explained.values())) if not concrete else []:
         k = next(k for k, v in explained.items() if v == cfg)
         case = judged[k][0]
         ok, why = X.agree(sess[k], mods.get("c%d" % k))
@@ -261,7 +268,7 @@ def run(ctx):
                 "theorem": "ORatio.props.Properties_C19.c19_pinned_refuted_end_without_start / c19_unclamped_refuted_start_in_delayed_tick",
                 "difference_with_repaired_model": why, "sessions": sum(1 for v in explained.values() if v == cfg),
                 "session": case["name"], "stdin": case["stdin"], "units": str(case["units"])}, no_input=True)
-    for k in unexplained[:1]:
+    for k in [k for k in unexplained if not judged[k][3]][:1] if not concrete else []:
         case, r, items, V, info = judged[k]
         ok, why = X.agree(sess[k], mods.get("c%d" % k))
         m = mods.get("c%d" % k) or {}
@@ -281,7 +288,7 @@ def run(ctx):
     cov["distinct_nontrivial"] = len({judged[k][0]["stdin"] for k, s in sess.items() if "replan" in s["expected"]})
     cov["rule"] = ("generated temporal problems (2-4 Interval + 0-2 Impulse predicates, optional StateVariable with 1-2 instances, sub-goals and "
                    "disjunctions in rules, 2-6 goals, precedence / equal-start / within / bound constraints with integer or fractional constants, "
-                   "some strict) x scripts (tick unit 1, 1/2, 3/2, 2; delays of starts and ends by 1, 2, 5, 1/2, 1/3, 3/2, 7/4, 1/4; every second "
+                   "some strict; one problem in four is of the class 'eps': integer constants, STRICT constraints `a.start > b.end + c`, `a.start < b.start`, `x.at > c`, `a.start < c`, so that planned times are t + k*epsilon with t the time of a tick - tick unit 1 or 1/2, delays multiples of it - and \"planned at t + eps\" differs from \"dispatched in the tick of time t\"; all comparisons of the judge are on (rational, infinitesimal) pairs) x scripts (tick unit 1, 1/2, 3/2, 2; delays of starts and ends by 1, 2, 5, 1/2, 1/3, 3/2, 7/4, 1/4; every second "
                    "script also 0, -1, -1/2; bursts of 2-3 delays on one atom; failure() of atoms of disjunctive sub-goals; requests made outside "
                    "the callbacks); non-trivial = at least one re-solve during execution")
     cov["input_distribution"] = dist
